@@ -127,6 +127,26 @@ Proof.
   change (w = next w' /\ chain (w' :: r')) in C. destruct C as [-> C]. constructor; [|apply IH; exact C].
   pose proof (chain_bounds _ C) as F. inversion F as [|? ? [Ha Hb] _]; subst. apply H1; lia.
 Qed.
+
+(* "growing": if moreover the back-off function is strictly increasing below the cap (true of w => min (w^e) max
+   for w > 1 s, e > 1), each sleep is strictly longer than the one before until the cap is reached, then stays there *)
+Hypothesis H1s : forall w, one < w -> w < wmax -> w < next w.
+
+Inductive growing : list Z -> Prop :=
+| gr_nil : growing []
+| gr_one w : growing [w]
+| gr_cons w w' r : (w' < w \/ (w' = wmax /\ w = wmax)) -> growing (w' :: r) -> growing (w :: w' :: r).
+
+Lemma chain_growing h : one < w0 -> chain h -> growing h.
+Proof.
+  intros Hs. induction h as [|w r IH]; intros C; [constructor|].
+  destruct r as [|w' r']; [constructor|].
+  change (w = next w' /\ chain (w' :: r')) in C. destruct C as [-> C]. constructor; [|apply IH; exact C].
+  pose proof (chain_bounds _ C) as F. inversion F as [|? ? [Ha Hb] _]; subst.
+  destruct (Z.eq_dec w' wmax) as [->|Hne].
+  - right. split; [reflexivity|]. pose proof (H1 wmax) as Hx. pose proof (H2 wmax). lia.
+  - left. apply H1s; lia.
+Qed.
 End Backoff.
 
 (* `hist` really is the list of sleeps: it changes exactly when a sleep is entered *)
@@ -380,6 +400,9 @@ Qed.
 
 Lemma backoff_real_H1 w wmax : 1 <= w -> w <= wmax -> w <= Rmin (Rpower w (6/5)) wmax.
 Proof. intros H Hm. apply Rmin_glb; [apply Rpower_grows_gen; lra|exact Hm]. Qed.
+
+Lemma backoff_real_H1s w wmax : 1 < w -> w < wmax -> w < Rmin (Rpower w (6/5)) wmax.
+Proof. intros H Hm. apply Rmin_glb_lt; [apply Rpower_grows_strict; lra|exact Hm]. Qed.
 
 Lemma backoff_real_H2 w wmax : Rmin (Rpower w (6/5)) wmax <= wmax.
 Proof. apply Rmin_r. Qed.
